@@ -377,8 +377,34 @@ def main(argv):
         cov["coq_case_seconds"] = round(sum(r["dt"] for r in results), 1)
         if summary.get("notes"):
             cov["notes"] = summary["notes"]
+    kwitness = []
     if kmis:
-        problems.append(("K", "%d case(s) on which the Coq model and the implementation disagree" % len(kmis), json.dumps(kmis[:5], indent=1, default=str)))
+        problems.append(("K", "%d case(s) on which the Coq model and the implementation disagree" % len(kmis), json.dumps(kmis[:3], indent=1, default=str)[:6000]))
+        proj = cfg.get("projection")
+        if proj and cfg.get("case_modules") == ["theories/CasesInterp.v"]:
+            import modelobs
+            def _size(km):
+                c = km.get("case")
+                try:
+                    return sum(len(j["prog"]) for j in c["jobs"])
+                except Exception:
+                    return 1 << 30
+            for km in sorted(kmis, key=_size)[:6]:
+                case = km.get("case")
+                if not isinstance(case, dict) or "obs" not in case:
+                    continue
+                mo, err = modelobs.model_obs(os.path.join(wdir, km["file"]), km["index"], COQ)
+                km["model"] = mo if mo is not None else err
+                if mo is None:
+                    continue
+                for jn, (io, m) in enumerate(zip(case["obs"], mo)):
+                    a, b = PROPS.project(proj, io), PROPS.project(proj, m)
+                    if a != b:
+                        kwitness.append({"job": jn, "program": case["jobs"][jn]["prog"], "document": case["jobs"][jn]["doc"],
+                                         "fail_at_call": case["jobs"][jn].get("fail"),
+                                         "observable": proj, "implementation": a, "required_by_proved_model": b,
+                                         "full_case": case})
+                        break
 
     # ------------------------------------------------ known findings, verdict
     known = [k for k in load_known() if k.get("property") == pid and k.get("status") == "known"]
@@ -397,6 +423,11 @@ def main(argv):
             ofails.append(of)
 
     nviol = 0
+    if not ofails and kwitness:
+        w = kwitness[0]
+        ofails = [{"what": "the implementation's %s differ from what the proved model requires for this program (correspondence case projected onto the observables the property speaks about)" % w["observable"],
+                   "input": {"program": w["program"], "document": w["document"], "fail_at_call": w["fail_at_call"], "job": w["job"], "case": w["full_case"]},
+                   "expect": w["required_by_proved_model"], "got": w["implementation"]}]
     if ofails:
         nviol += 1
         of = ofails[0]
